@@ -10,6 +10,7 @@ BFS with canonical hashing; reports states/transitions and whether the frontier 
 from collections import deque
 
 from mc import alphabets as A
+from mc import core
 from mc import formats as F
 from mc import oracle as O
 
@@ -36,8 +37,12 @@ def cases(tier, seed):
             yield dict(key=key, ir=F.ir_to_json(ir), depth=_bounds(tier)["depth"])
 
 
+_FINDINGS = []
+
+
 def worker_init(tier, seed):
     O.selfcheck()
+    _FINDINGS[:] = core.load_findings(PROPERTY)
 
 
 def do_hop(fmt, ir):
@@ -65,11 +70,11 @@ def run(case):
     depth_bound = case.get("depth", 4)
     start = (O.canon_ir(ir0), internal_digest(ir0))
     seen = {start}
-    frontier = deque([(ir0, [])])
+    frontier = deque([(ir0, [], False)])
     viol, transitions, closed, max_depth, poisoned = [], 0, True, 0, 0
     interfaces = {O.canon_ir(ir0, with_doc=False)}
     while frontier:
-        ir, path = frontier.popleft()
+        ir, path, lossy = frontier.popleft()
         if len(path) >= depth_bound:
             closed = False
             continue
@@ -77,6 +82,8 @@ def run(case):
             transitions += 1
             newpath = path + [fmt]
             ctx = dict(check="chain_hop", last_hop=fmt, from_initial=not path)
+            if lossy:
+                ctx["after_recorded_loss"] = True
             try:
                 back, text = do_hop(fmt, ir)
             except F.HopError as e:
@@ -97,9 +104,15 @@ def run(case):
                 v["case"] = dict(ir=case["ir"], path=newpath)
                 viol.append(v)
             if hop_viol:
-                # the target state is already wrong: what happens to a corrupted interface afterwards is not the property's subject
+                # the target state is already wrong: what happens to a corrupted interface afterwards is not the property's subject -
+                # unless every difference is a *recorded* loss (known finding): those states are what real chains continue from, so the
+                # search goes on through them (every later hop is still judged against its own source state)
                 poisoned += 1
-                continue
+                if not (_FINDINGS and all("R-argparse-none-default" in ((core.match_finding(_FINDINGS, v["sig"]) or {}).get("what") or "") for v in hop_viol)):
+                    continue  # (only the argparse hop's dropped None default: the result is a well-formed interface of its own; other recorded losses leave garbage behind)
+                through_loss = True
+            else:
+                through_loss = False
             k = (O.canon_ir(back), internal_digest(back))
             interfaces.add(O.canon_ir(back, with_doc=False))
             if k not in seen:
@@ -108,7 +121,7 @@ def run(case):
                     continue
                 seen.add(k)
                 max_depth = max(max_depth, len(newpath))
-                frontier.append((back, newpath))
+                frontier.append((back, newpath, lossy or through_loss))
     # de-duplicate identical signatures inside one search (keep the shortest path = first found)
     uniq, out = set(), []
     for v in viol:
